@@ -1,4 +1,68 @@
+/-
+C04 — property theorems (statements fixed by the architect; do not weaken).
+Helper lemmas: PeroVerif/Lemmas/Ctc.lean (shared collapse lemmas, reused by C02/C05) and
+PeroVerif/Lemmas/Greedy.lean.
+-/
 import PeroVerif.Model.Greedy
+import PeroVerif.Lemmas.Ctc
+import PeroVerif.Lemmas.Greedy
+
 namespace C04
-theorem placeholder : (1:Nat) = 1 := rfl
+open Ctc Greedy
+
+/-- `argmaxFirst` is the first maximum (NumPy / Torch tie rule), for every non-empty frame. -/
+theorem argmaxFirst_spec (l : List Int) (h : l ≠ []) :
+    ∃ hi : argmaxFirst l < l.length,
+      (∀ j (hj : j < l.length), l[j] ≤ l[argmaxFirst l]) ∧
+      (∀ j (hj : j < argmaxFirst l), l[j]'(by omega) < l[argmaxFirst l]) := by
+  obtain ⟨best, h1, h2, h3, h4⟩ := argmaxFirst_spec_opt l h
+  have hb : l[argmaxFirst l] = best := by
+    rw [List.getElem?_eq_getElem h1] at h2
+    exact Option.some.inj h2
+  refine ⟨h1, ?_, ?_⟩
+  · intro j hj
+    rw [hb]
+    exact h3 j _ (List.getElem?_eq_getElem hj)
+  · intro j hj
+    rw [hb]
+    exact h4 j _ hj (List.getElem?_eq_getElem (by omega))
+
+/-- The engine's index pipeline is the CTC collapse of the arg-max path (every line, every length,
+every number of classes ≥ 1; blank = last class). -/
+theorem engineLine_eq (C : Nat) (hC : 0 < C) (am : List Nat) :
+    engineLine C am = collapse (C - 1) am := by
+  rw [engineLine_eq_engineAux, engineAux_eq_collapseAux C hC, collapseAux_some_blank, collapse]
+
+/-- The stand-alone decoder (groupby heads, drop blanks) is the CTC collapse. -/
+theorem standalone_eq (blank : Nat) (am : List Nat) :
+    standalone blank am = collapse blank am := standalone_eq_collapse blank am
+
+/-- `greedy_filtration`'s loop is the CTC collapse. -/
+theorem filtration_eq (blank : Nat) (am : List Nat) :
+    filtration blank none am = collapse blank am := by
+  rw [filtration_eq_collapseAux blank none (by simp), collapse]
+
+/-- Both decoders give the same text for the same network output. -/
+theorem decoders_agree (C : Nat) (hC : 0 < C) (frames : List (List Int)) :
+    engineLine C (argmaxPath frames) = standalone (C - 1) (argmaxPath frames) := by
+  rw [engineLine_eq C hC, standalone_eq]
+
+/-- Batched decoding is line-wise: line `i` of the batch result depends on line `i` only. -/
+theorem batch_pointwise (C : Nat) (hC : 0 < C) (ams : List (List Nat)) (i : Nat) :
+    (engineBatch C ams)[i]? = (ams[i]?).map (collapse (C - 1)) := by
+  have : engineLine C = collapse (C - 1) := funext (engineLine_eq C hC)
+  simp only [engineBatch, List.getElem?_map, this]
+
+/-- Mapping through an injective character table commutes with everything above (the text is the
+image of the collapsed index sequence). -/
+theorem text_eq {χ : Type} (chars : Nat → χ) (C : Nat) (hC : 0 < C) (am : List Nat) :
+    (engineLine C am).map chars = (collapse (C - 1) am).map chars := by
+  rw [engineLine_eq C hC]
+
+/-! Non-vacuity: first frame non-blank, repeats split by blank, trailing blank, last class next to blank. -/
+example : engineLine 3 [0, 0, 2, 0, 1, 1, 2] = [0, 0, 1] := by decide
+example : collapse 2 [0, 0, 2, 0, 1, 1, 2] = [0, 0, 1] := by decide
+example : engineLine 3 [2, 2, 2] = [] := by decide
+example : argmaxFirst [3, 7, 7, 1] = 1 := by decide
+
 end C04
